@@ -859,14 +859,30 @@ def unroll_literal_loops(func_node: ast.AST, max_items: int = 8) -> ast.AST:
                 return node
             names, rows = spec
             out = []
-            for row in rows:
+            # locals that live inside the loop body only get one name per copy (they are single-assignment again afterwards)
+            stored = {x.id for b_ in node.body for x in ast.walk(b_) if isinstance(x, ast.Name) and isinstance(x.ctx, ast.Store)}
+            inside = {id(x) for b_ in node.body for x in ast.walk(b_)}
+            outside = {x.id for x in ast.walk(fn) if isinstance(x, ast.Name) and id(x) not in inside}
+            private = stored - outside - set(names)
+            for k_row, row in enumerate(rows):
                 env = dict(zip(names, row))
+                env.update({nm: ast.Name(id=f"{nm}__{k_row}", ctx=ast.Load()) for nm in private})
 
                 class _B(ast.NodeTransformer):
                     def visit_Name(self, n):
                         if isinstance(n.ctx, ast.Load) and n.id in env:
                             return copy.deepcopy(env[n.id])
+                        if isinstance(n.ctx, ast.Store) and n.id in private:
+                            return ast.copy_location(ast.Name(id=f"{n.id}__{k_row}", ctx=ast.Store()), n)
                         return n
+
+                    def visit_Call(self, c):
+                        self.generic_visit(c)
+                        # getattr(x, "<name>") with the name now a literal is the attribute access it abbreviates
+                        if isinstance(c.func, ast.Name) and c.func.id == "getattr" and len(c.args) == 2 and not c.keywords and isinstance(c.args[1], ast.Constant) \
+                                and isinstance(c.args[1].value, str) and c.args[1].value.isidentifier():
+                            return ast.copy_location(ast.Attribute(value=c.args[0], attr=c.args[1].value, ctx=ast.Load()), c)
+                        return c
                 for st in node.body:
                     out.append(ast.copy_location(_B().visit(copy.deepcopy(st)), st))
             return out
